@@ -1,6 +1,7 @@
 //! Correspondence harness: generates cases from (seed, case number), runs the real crate in-process
 //! and prints one self-contained case per line for the Lean judge.
 mod c02;
+mod c05m;
 mod c09;
 mod c10;
 mod c12;
@@ -29,8 +30,15 @@ fn main() {
     let seed: u64 = args[3].parse().unwrap();
     let first: u64 = args[4].parse().unwrap();
     let n: u64 = args[5].parse().unwrap();
-    let stdout = std::io::stdout();
-    let mut lock = stdout.lock();
+    // The case lines go to the original stdout; fd 1 itself is pointed at /dev/null so that the crate's own
+    // `println!` (the verbose distillation variants print progress to the terminal) cannot corrupt the protocol.
+    let mut lock = unsafe {
+        use std::os::unix::io::FromRawFd;
+        let keep = libc::dup(1);
+        let devnull = libc::open(b"/dev/null\0".as_ptr() as *const libc::c_char, libc::O_WRONLY);
+        libc::dup2(devnull, 1);
+        std::io::BufWriter::new(std::fs::File::from_raw_fd(keep))
+    };
     for case in first..first + n {
         let mut rng = Rng::new(seed, case);
         let line = std::panic::catch_unwind(std::panic::AssertUnwindSafe(|| match kind {
@@ -53,6 +61,7 @@ fn main() {
             "C02T" => c02::case(&mut rng, true),
             "C09" => c09::case(&mut rng, false),
             "C09T" => c09::case(&mut rng, true),
+            "C05M" => c05m::case(&mut rng),
             "C10" => c10::case(&mut rng),
             "C15" => c10::cleanup_case(&mut rng),
             "C14" => c14::case(&mut rng),
